@@ -119,10 +119,43 @@ def line_of(src, pos):
     return src.count('\n', 0, pos) + 1
 
 
-def slice_source(src, keep, cuts=None, protos=True, stubs=None):
+def slice_source(src, keep, cuts=None, protos=True, stubs=None, auto_static=True):
     """keep: list of names; 'name' keeps every overload, 'name#k' the k-th (1-based) definition.
     cuts: {name: {'marker': regex, 'replace': text}}.
+    auto_static: file-static helper functions that the kept text calls and that are neither kept nor stubbed are kept
+    as well (transitively; reported as 'auto_kept'): a refactoring that moves part of a function under contract into a
+    new static helper stays inside the unit instead of ending in an extraction miss.
     returns (text, report)"""
+    if auto_static:
+        keep = list(keep)
+        auto = []
+        while True:
+            text, rep = slice_source(src, keep, cuts, protos, stubs, auto_static=False)
+            fs0 = functions(src)
+            cl0 = blank_comments(src)
+            kept_names = set(k['function'] for k in rep['kept'])
+            kept_text = blank_comments(text)
+            new = []
+            for name, a, b, bo in fs0:
+                head = cl0[a:bo]
+                if name in kept_names or name in (stubs or {}) or name in new or '::' in name:
+                    continue
+                if not re.match(r'\s*(static|inline)\b', head):
+                    continue
+                # called from kept text?  (the prototype the slicer leaves behind ends in ';' and is not a call site)
+                for m in re.finditer(r'\b' + re.escape(name) + r'\s*\(', kept_text):
+                    ln_start = kept_text.rfind('\n', 0, m.start()) + 1
+                    ln_end = kept_text.find('\n', m.end())
+                    line = kept_text[ln_start:ln_end if ln_end >= 0 else len(kept_text)]
+                    if re.match(r'\s*(static|inline)\b', line) and line.rstrip().endswith(';'):
+                        continue
+                    new.append(name)
+                    break
+            if not new:
+                rep['auto_kept'] = auto
+                return text, rep
+            keep += new
+            auto += new
     cuts = cuts or {}
     stubs = stubs or {}
     stubbed = []
